@@ -153,6 +153,20 @@ def one(name, mode, n, powerloss=False, payload=False):
                 pass
 
 
+def sparse_points(log, T):
+    """long traces (thousands of writes): the boundaries before and after every call that is not a plain write - opens, flushes, fsyncs,
+    closes, truncations, renames/links/unlinks, every SQL statement and COMMIT - plus the first and last boundaries and an even sample of
+    the writes"""
+    pts = {1, 2, T, T + 1}
+    for i, e in enumerate(log, start=1):
+        if len(e) > 1 and e[1] != 'write':
+            pts |= {i, i + 1}
+    writes = [i for i, e in enumerate(log, start=1) if len(e) > 1 and e[1] == 'write']
+    step = max(1, len(writes) // 12)
+    pts |= set(writes[::step])
+    return sorted(p for p in pts if 1 <= p <= T + 1)
+
+
 def sweep(ck, pid, names, mode, powerloss=False, limit_per_scenario=None):
     """returns (number of injection points explored, list of baselines)"""
     total = 0
@@ -166,6 +180,8 @@ def sweep(ck, pid, names, mode, powerloss=False, limit_per_scenario=None):
         baselines[name] = base
         # n = T + 1: the operation runs to completion and the process dies (loses power) right afterwards
         points = list(range(1, T + 2))
+        if T > 600:
+            points = sparse_points(base['log'], T)
         if limit_per_scenario and len(points) > limit_per_scenario:
             step = len(points) / limit_per_scenario
             points = sorted({points[int(i * step)] for i in range(limit_per_scenario)} | {1, T, T + 1})
